@@ -49,7 +49,11 @@ def gen_case(rng, idx, tier):
                'mid_rvar': int(rng.integers(1, 3)) if rng.random() < 0.35 else 0}
         dis = []
         for _ in range(int(rng.integers(1, 4))):
-            pr, n_, _c = S.random_set(rng, nzr, R.ALL_KINDS, allow_aux=False)
+            kinds_ = R.ALL_KINDS
+            if rng.random() < 0.45:
+                # exponential-cone type pieces are kept in lists of their own by the model layers
+                kinds_ = ['expc', 'expc', 'kl', 'entropy']
+            pr, n_, _c = S.random_set(rng, nzr, kinds_, allow_aux=False)
             dis.append(pr)
         ext = None
         if ops['late']:
@@ -195,9 +199,16 @@ def run_ro(spec, ctx):
         state['nd'] += 1
         zz = B.zpart(base['nzr'])
         dummy = (B.xs[0][0] + zz.sum() <= 7.0)
-        dummy.forall(S.build_rsome(pr, zz, hr))
+        dcons = list(S.build_rsome(pr, zz, hr))
+        tag = '+'.join(p['t'] for p in pr)
+        if hr.random() < 0.3:
+            # an exponential-cone piece without auxiliary random variable: exp(z0) <= z0 + 0.7,
+            # i.e. z0 in about [-0.67, -0.19] - a set that cuts into every real one
+            dcons.append(rso.expcone(zz[0] + 0.7, zz[0], 1.0))
+            tag += '+expcone'
+        dummy.forall(dcons)
         ctx.count('distractors_defined')
-        events.append('distractor:' + '+'.join(p['t'] for p in pr))
+        events.append('distractor:' + tag)
 
     def midsolve(B):
         m = B.model
